@@ -130,6 +130,16 @@ impl<const N: usize> Tape<N> {
         if self.err_eof { ioerr(io::ErrorKind::UnexpectedEof) } else { ioerr(io::ErrorKind::Other) }
     }
 
+    /// A read that fails on a width error still moves the cursor.  This is deliberate: CBMC merges
+    /// the early-return path with the normal path at the end of each (inlined) callee, and a
+    /// cursor that differs between the two becomes a symbolic index for every later field.
+    /// After an error the stream is never read again, so the cursor value is unobservable.
+    fn bump(&mut self) {
+        if self.pos < self.len {
+            self.pos += 1;
+        }
+    }
+
     /// core read: returns the raw value of a field of the given kind/width
     pub fn get(&mut self, kind: u8, width: u32) -> io::Result<u64> {
         if self.pos < self.len {
@@ -232,6 +242,7 @@ impl<const N: usize> BitRead for Tape<N> {
     {
         let n = u32::from(bits);
         if n > U::BITS_SIZE {
+            self.bump();
             return Err(ioerr(io::ErrorKind::InvalidInput));
         }
         let v = self.get(K_U, n)?;
@@ -250,6 +261,7 @@ impl<const N: usize> BitRead for Tape<N> {
             .map_err(|_| ioerr(io::ErrorKind::InvalidInput))?;
         let n = u32::from(bits);
         if n > S::BITS_SIZE {
+            self.bump();
             return Err(ioerr(io::ErrorKind::InvalidInput));
         }
         let v = self.get(K_S, n)?;
